@@ -76,6 +76,8 @@ def gen_lead(rng, fam):
             x = gen_val(rng, fam)
             if x != 0: return x
     if fam == 'cplx':
+        if rng.chance(1, 4):       # unit-modulus leading coefficients: 1/z = conj z there, not z (seeded mutation C12-6)
+            return rng.choice([1j, -1j, complex(-1.0, 0.0), complex(1.0, 0.0), complex(0.6, 0.8), complex(-0.8, 0.6), complex(0.0, -1.0)])
         if rng.chance(1, 2):
             return complex(float(rng.choice(BAD_LEAD[:20])), float(rng.range(-3, 3)))
         while True:
